@@ -28,6 +28,7 @@ import (
 	"crypto/sha256"
 	"encoding/json"
 	"fmt"
+	"hash/crc32"
 	"io"
 	"os"
 	"os/exec"
@@ -487,6 +488,12 @@ func checkStopX(o *outcome, dir string, expN int, expIDs, expFl, allowed []int, 
 		if !compare(fmt.Sprintf("after later commit %d", i+1), c.N, ids, all, nil, []int{c.N}) {
 			return
 		}
+	}
+	// the clean Close + second reopen is done for every third stop (it costs two more leveldb opens)
+	// (chosen by a hash of the stop, so the choice does not depend on scheduling)
+	if crc32.ChecksumIEEE([]byte(fmt.Sprint(where, expN, expIDs, len(attempted))))%3 != 0 {
+		ok = true
+		return
 	}
 	if err := db.Close(); err != nil {
 		closed = true
